@@ -4,7 +4,8 @@
    kinds a regex can get, plus the raw path. *)
 From Boreal Require Import Base.Prelude Spec.Regex Model.Hir Model.Widen Model.Validator Model.Raw Model.HirScan
   Model.Decomp Model.HexCase
-  Proofs.HexScanProofs Proofs.ValidatorProofs Proofs.DecompProofs Proofs.HexProofs Proofs.RawProofs Proofs.HexWitnesses.
+  Proofs.HexScanProofs Proofs.ValidatorProofs Proofs.DecompProofs Proofs.HexProofs Proofs.RawProofs Proofs.WidenProofs
+  Proofs.HexWitnesses.
 From Coq Require Import Sorted.
 
 (* Ordered, one match per offset, for every regex string that goes through the Aho-Corasick pass. *)
@@ -53,6 +54,26 @@ Theorem C03_raw_scan_exact :
           (filter (fun s => nonempty (ends (flags_of md) mem h s)) (iota 0 (nlen mem))).
 Proof. exact raw_scan_exact. Qed.
 
+(* widen_correct: matching the widened HIR on the raw bytes = matching the HIR under the wide reading
+   of the reference semantics, for every HIR without \b / \B, every input, every offset: same ends
+   in the same priority order *)
+Theorem C03_widen_correct :
+  forall fl, wide fl = false -> forall mem h, has_word_boundary h = false ->
+  forall i, ends fl mem (widen_hir h) i
+            = ends {| nocase := nocase fl; dot_all := dot_all fl; wide := true |} mem h i.
+Proof. exact widen_correct. Qed.
+
+(* hence the validators of a wide string search the original HIR under the wide reading *)
+Theorem C03_wide_validator_fwd :
+  forall md h mt mem s lim, is_wide_mt mt = true -> has_word_boundary h = false ->
+    dfa_fwd md h mt mem s lim = lf_end (wide_flags_of md) mem h s lim.
+Proof. exact wide_dfa_fwd. Qed.
+
+Theorem C03_wide_validator_rev :
+  forall md h mt mem lo e, is_wide_mt mt = true -> has_word_boundary h = false -> lo <= e ->
+    dfa_rev md h mt mem lo e = rev_min_start (wide_flags_of md) mem h lo e.
+Proof. exact wide_dfa_rev. Qed.
+
 (* known findings are real *)
 Theorem C03_start_position_refuted :
   In 0 (starts_spec (flags_of md_re) m_95 h_95r)
@@ -73,6 +94,12 @@ Theorem C03_nocase_negated_class_pinned_refuted :
 Proof. exact nocase_negated_class_pinned_refuted. Qed.
 
 (* non-vacuity *)
+Example C03_widen_example :
+  has_word_boundary h_raw = false
+  /\ ends (flags_of md_re) [97;0;98;0;98;0;99;0] (widen_hir h_raw) 0 = [8]
+  /\ ends (wide_flags_of md_re) [97;0;98;0;98;0;99;0] h_raw 0 = [8].
+Proof. vm_compute. repeat split. Qed.
+
 Example C03_raw_example :
   plain md_re /\ ends (flags_of md_re) [120;97;98;98;99;97;98;99] h_raw 8 = []
   /\ raw_scan md_re h_raw [120;97;98;98;99;97;98;99] 1000 = [(1, 4); (5, 3)].
@@ -88,6 +115,9 @@ Print Assumptions C03_greedy_sound.
 Print Assumptions C03_atomized_sound.
 Print Assumptions C03_atomized_complete.
 Print Assumptions C03_raw_scan_exact.
+Print Assumptions C03_widen_correct.
+Print Assumptions C03_wide_validator_fwd.
+Print Assumptions C03_wide_validator_rev.
 Print Assumptions C03_start_position_refuted.
 Print Assumptions C03_fullword_single_length_refuted.
 Print Assumptions C03_nocase_negated_class_pinned_refuted.
